@@ -225,7 +225,7 @@ def run_property(prop, tier, seed):
                 if r.violation is not None and res.violation is None:
                     res.violation = r.violation
                 if res.violation is None and cross_cpu_violation is None:
-                    bad = sorted(i for i in ref_hashes if r.hashes.get(i) != ref_hashes[i])
+                    bad = sorted(i for i in ref_hashes if i in r.hashes and r.hashes[i] != ref_hashes[i])
                     if bad:
                         cross_cpu_violation = (bad[0], cpu)
             if res.violation is not None:
